@@ -191,6 +191,11 @@ class KeyedList(Generic[ItemType, KeyType], MutableSequence, KeyedBase):  # pyli
     def __len__(self):
         return len(self._list)
 
+    def __reversed__(self):
+        # As a list: the `Sequence` mixin fixes the range of indices up front,
+        # and fails if the list shrinks while it is being iterated over.
+        return reversed(self._list)
+
     def insert(self, index, value):
         item, key = self._validate_item(value)
         if key in self._dict:
@@ -352,7 +357,7 @@ class KeyedSet(Generic[ItemType, KeyType], MutableSet, KeyedBase):  # pylint: di
                     or self.enforce_item_equivalence
                     and item_or_key == self._dict[key]
                 )
-        except (TypeError, AttributeError):
+        except (TypeError, AttributeError, LookupError):
             # (what cannot be keyed - e.g. a key that is not present, handed to a
             # key function that reads an attribute - is not an item of this set)
             pass
@@ -393,7 +398,7 @@ class KeyedSet(Generic[ItemType, KeyType], MutableSet, KeyedBase):  # pylint: di
                 and value == self._dict[key]
             ):
                 del self._dict[key]
-        except (TypeError, AttributeError):
+        except (TypeError, AttributeError, LookupError):
             pass
 
     def _from_iterable(self, it):  # pylint: disable=arguments-differ
@@ -490,7 +495,7 @@ class KeyedSet(Generic[ItemType, KeyType], MutableSet, KeyedBase):  # pylint: di
             pass
         try:
             item_key = self.key(key)
-        except (TypeError, AttributeError):
+        except (TypeError, AttributeError, LookupError):
             # (as for `in`: what cannot be keyed is not an item of this set)
             raise KeyError(key) from None
         if item_key in self._dict:
